@@ -7,6 +7,7 @@ import (
 	"go/token"
 	"go/types"
 	"regexp"
+	"sort"
 	"strings"
 
 	"golang.org/x/tools/go/packages"
@@ -1144,6 +1145,13 @@ func ruleR149(c *Ctx) {
 		info := pkg.TypesInfo
 		// the cell and the functions of the package it calls (two levels)
 		bodies := []ast.Node{r.lit}
+		for _, bl := range r.bind {
+			if bl != nil {
+				bodies = append(bodies, bl)
+			}
+		}
+		sort.Slice(bodies, func(i, j int) bool { return bodies[i].Pos() < bodies[j].Pos() })
+		n++
 		for depth := 0; depth < 2; depth++ {
 			var next []ast.Node
 			for _, b := range bodies {
@@ -1173,7 +1181,6 @@ func ruleR149(c *Ctx) {
 				continue
 			}
 			seen[b] = true
-			n++
 			var tids []string
 			for _, t := range r.types {
 				tids = append(tids, nodeStr(c.Fset, t))
